@@ -11,3 +11,19 @@ package halts
 //@   trusted
 //@   ensures result == haltModel(hb, height)
 //@   modifies mapof(hb.list)
+
+//@ func (*HaltBlocks).get
+//@   trusted
+//@   ensures result == haltModel(hb, height)
+//@   modifies mapof(hb.list)
+
+//@ # a halt vote by pubkey for height exists iff pubkey occurs in the record's list (duplicate-vote gate, C20)
+//@ func (*HaltBlocks).IsHaltExists
+//@   serves C20
+//@   let m = haltModel(hb, height)
+//@   requires hb != nil
+//@   ensures [thorough] found: result ==> m != nil && exists b int :: 0 <= b && b < len(m.List) && m.List[b].Pubkey == pubkey
+//@   ensures notfound: !result ==> (m == nil || forall b int :: 0 <= b && b < len(m.List) ==> m.List[b].Pubkey != pubkey)
+//@   loop 0 invariant bounds: -1 <= rangeindex && (rangeindex < len(model.List) || (rangeindex == -1 && len(model.List) == 0))
+//@   loop 0 invariant none: forall b int :: 0 <= b && b <= rangeindex ==> model.List[b].Pubkey != pubkey
+//@   modifies mapof(hb.list)
